@@ -76,7 +76,11 @@ def cases(rnd, n):
         nf = len(names)
         sel = rnd.choice([None, None, [0], list(range(nf)), [nf - 1], [], [j for j in range(nf) if rnd.random() < 0.5]])
         sw = rnd.choice(["cas", "dsk", "dsk", "cas", "bin"])
-        out.append({"seed": rnd.randrange(1 << 30), "names": names, "srckind": rnd.choice(["cas", "dsk"]), "sw": sw, "select": sel,
+        srckind = rnd.choice(["cas", "dsk"])
+        if k % 9 == 4:
+            # a tape may hold several files of the same name (also: differing only in case / behind the 8th character): all of them are carried across
+            names, sel, srckind, sw = rnd.choice([["GAME", "LOADER", "GAME"], ["prog", "PROG"], ["PROGRAM10", "PROGRAM11", "OTHER"]]), None, "cas", rnd.choice(["cas", "cas", "dsk"])
+        out.append({"seed": rnd.randrange(1 << 30), "names": names, "srckind": srckind, "sw": sw, "select": sel,
                     "how": rnd.choice(["same", "upper", "lower", "swap"]), "lens": [rnd.choice([1, 20, 255, 256, 300, 2294, 2295, 2304, 5000]) for _ in range(3)],
                     "kinds": [rnd.choice([(2, 0), (2, 0), (0, 0), (1, 255), (2, 255), (1, 0), (0, 255), (3, 255)]) for _ in range(3)], "gapped": rnd.random() < 0.3})
     return out
